@@ -1,6 +1,7 @@
 package main
 
 import (
+	"regexp"
 	"fmt"
 
 	"golang.org/x/tools/go/ssa"
@@ -133,8 +134,82 @@ func rulePipeClose(c *Ctx) {
 	}
 }
 
+// ruleNoPositiveAfterShortCopy: a reply that can be positive, sent after a chunk was copied into the BDAT pipe,
+// needs the same two facts as the clean close: the copy returned no error and delivered the declared size.
+func ruleNoPositiveAfterShortCopy(c *Ctx) {
+	R := c.R
+	R.Rule("R-no-positive-after-short-copy", "E3+E4", "after the chunk copy, a reply that may be positive (a 2xx constant, or a computed status whose error operand is not known to be non-nil) is sent only where the copy returned no error and delivered the declared number of octets", 3)
+	for _, cp := range c.Sites("copy-to:Conn.bdatPipe") {
+		f := cp.Parent()
+		reach := map[*ssa.BasicBlock]bool{}
+		var walk func(b *ssa.BasicBlock)
+		walk = func(b *ssa.BasicBlock) {
+			for _, s := range b.Succs {
+				if !reach[s] {
+					reach[s] = true
+					walk(s)
+				}
+			}
+		}
+		walk(cp.Block())
+		allInstrs(f, func(in ssa.Instruction) {
+			ls := c.stdLabels(in)
+			if !labelHas(ls, "reply") {
+				return
+			}
+			after := reach[in.Block()]
+			if in.Block() == cp.Block() && !after {
+				for _, x := range in.Block().Instrs {
+					if x == cp {
+						after = true
+					}
+					if x == in {
+						break
+					}
+				}
+				if !after {
+					return
+				}
+			} else if !after {
+				return
+			}
+			positive, why := false, ""
+			switch {
+			case labelHas(ls, "reply:2xx"):
+				positive, why = true, "a 2xx constant"
+			case labelHas(ls, "reply:dyn"):
+				positive, why = true, "a computed status"
+				cc := callCommon(in)
+				if len(cc.Args) >= 2 {
+					if ex, ok := stripConv(cc.Args[1]).(*ssa.Extract); ok {
+						if call, ok := ex.Tuple.(*ssa.Call); ok && len(call.Call.Args) == 1 {
+							v := call.Call.Args[0]
+							why = "computed from " + describe(v) + ", which may be nil (nil maps to 250)"
+							if valueKnownNonNil(v) {
+								positive = false
+							} else if ok, _ := c.factMatch(in, "^"+regexp.QuoteMeta(describe(v))+" != nil$"); ok {
+								positive = false
+							}
+						}
+					}
+				}
+			}
+			if !positive {
+				c.R.Ob(c.siteKey(in, "reply after the copy cannot be positive"), c.P.InstrPos(in), true, "")
+				return
+			}
+			okE, _ := c.factMatch(in, `^io\.Copy(N)?\(Conn\.bdatPipe,.*\)#1 == nil$`)
+			okN, _ := c.factMatch(in, `^io\.Copy\(Conn\.bdatPipe,.*\)#0 (==|>=) strconv\.ParseUint\(.*\)#0$`)
+			okCopyN, _ := c.factMatch(in, `^io\.CopyN\(Conn\.bdatPipe,.*\)#1 == nil$`)
+			R.Ob(c.siteKey(in, "possibly positive reply only after a complete chunk"), c.P.InstrPos(in), okE && (okN || okCopyN),
+				"reply ("+why+") is sent on a path where the chunk copy may have failed or delivered fewer octets than declared: a truncated transfer is answered positively")
+		})
+	}
+}
+
 func runC07(c *Ctx) {
 	ruleEOFOnlyAtEnd(c)
 	rulePipeClose(c)
+	ruleNoPositiveAfterShortCopy(c)
 	var _ ssa.Instruction
 }
